@@ -319,7 +319,7 @@ func runC08(c *Ctx) {
 			case "os.Remove", "os.RemoveAll":
 				nRem++
 				a := tb.Of(ci.Common().Args[0])
-				okR := f.Name() == "pruneFiles" && calleeName(ci.Common()) == "os.Remove" && a.Op == "Index" && a.Args[0].Op == "Extract" && a.Args[0].Args[0].Name == "path/filepath.Glob"
+				okR := f.Name() == "pruneFiles" && calleeName(ci.Common()) == "os.Remove" && a.Op == "Index" && fromGlob(tb, ci.Common().Args[0])
 				r.Check(okR, "C08.names", p.ShortFn(f)+"->os.Remove", p.InstrPos(in), "only elements of the sink's own glob are removed, only in pruning", "a file is removed outside pruning or not taken from the sink's own glob: "+a.String())
 			case "os.Rename":
 				nRen++
@@ -1275,7 +1275,37 @@ func runC15(c *Ctx) {
 			r.Bad("C15.prune", "pruneFiles:calls", p.Pos(fn.Pos()), "pruneFiles does not contain exactly one os.Remove and one sort.Strings")
 		} else {
 			a := tb.Of(rm[0].Common().Args[0])
-			okIdx := a.Op == "Index" && a.Args[0].String() == tb.Of(srt[0].Common().Args[0]).String() && dominatesInstr(srt[0], rm[0])
+			okIdx := a.Op == "Index" && (a.Args[0].String() == tb.Of(srt[0].Common().Args[0]).String() || (a.Args[0].V != nil && a.Args[0].V == tb.Of(srt[0].Common().Args[0]).V)) && dominatesInstr(srt[0], rm[0])
+			// the removal candidates are not the raw glob result: "<base>-*<ext>" also matches the
+			// files of a sink called "<base>-errors<ext>". They are accumulated one by one, each under
+			// a test of the candidate's own name.
+			if a.Op == "Index" {
+				raw := a.Args[0].Op == "Extract" && a.Args[0].Args[0].Is("Call", "path/filepath.Glob")
+				filtered := false
+				if ia, ok := stripConv(rm[0].Common().Args[0]).(*ssa.UnOp); ok {
+					if idx, ok := ia.X.(*ssa.IndexAddr); ok {
+						var elems, leaves []ssa.Value
+						var apps []*ssa.Call
+						sliceOrigins(idx.X, map[ssa.Value]bool{}, &elems, &apps, &leaves)
+						if len(apps) > 0 {
+							for _, ap := range apps {
+								// the append is conditional inside its loop, on a condition that mentions the element
+								if unc, at := unconditionalInLoop(ap); !unc && at != nil {
+									cond, _, _ := condOf(at)
+									ct := tb.Of(cond)
+									for _, e := range elems {
+										et := tb.Of(e)
+										if ct.Find(func(x *Term) bool { return x.V != nil && (x.V == et.V || x.String() == et.String()) }) != nil {
+											filtered = true
+										}
+									}
+								}
+							}
+						}
+					}
+				}
+				r.Check(!raw && filtered, "C15.prune", "pruneFiles:own-names", p.InstrPos(rm[0]), "removal candidates are accumulated under a test of each candidate's own name", "the files removed are taken straight from the glob <base>-*<ext>, which also matches files of other sinks in the directory (\"audit-errors-<ts>.log\" for \"audit.log\"): they are counted against MaxFiles and deleted, and this sink's own rotated files can be the ones that go")
+			}
 			// loop bound: i < len(matches) - MaxFiles, i counting up from 0 by 1, and matches[i] is what is removed
 			okBound := false
 			if loop := loopOf(rm[0].Block()); loop != nil {
